@@ -89,6 +89,9 @@ func (p *primRec) Coq(f *coqgen.File) string {
 	}
 	sort.Strings(bk)
 	for _, k := range bk {
+		if len(k) > 300 {
+			continue // never part of a model case (a consulted miss is a disagreement)
+		}
 		bs = append(bs, fmt.Sprintf("(%s, %s)", f.Str(k), p.bytes[k]))
 	}
 	return fmt.Sprintf("mkrawprim %s\n %s\n %s", coqgen.Limbs(constants.Q), coqgen.List(hs), coqgen.List(bs))
